@@ -539,3 +539,25 @@ func (s *Node) SetKeyInfoOdd(kind int) {
 	s.KI, s.KICert = kiBad, 0
 	s.Raw = elToString(root)
 }
+
+// EncDouble builds an EncryptedAssertion that carries TWO EncryptedData children (a decoy first, the
+// genuine ciphertext second, or the reverse): decryptElement requires exactly one, so it is refused.
+func EncDouble(p *Node, decoyFirst bool) *Node {
+	cidCounter++
+	raw := encryptRaw([]byte(p.Render()), spKeyName)
+	doc := etree.NewDocument()
+	if err := doc.ReadFromString(raw); err != nil {
+		panic(err)
+	}
+	ed := doc.Root().FindElement("./EncryptedData")
+	decoy := ed.Copy()
+	if cv := decoy.FindElement("./CipherData/CipherValue"); cv != nil {
+		cv.SetText(base64.StdEncoding.EncodeToString(make([]byte, 48)))
+	}
+	if decoyFirst {
+		doc.Root().InsertChildAt(0, decoy)
+	} else {
+		doc.Root().AddChild(decoy)
+	}
+	return &Node{Kind: kEnc, Cid: cidCounter, St: 1, Raw: elToString(doc.Root())}
+}
